@@ -126,7 +126,8 @@ def _in_arglist(out: list[tuple[str, str]]) -> bool:
     return False
 
 
-SKIPS = [" ", " ", " ", "\n", "\n    ", "\t", "  ", " /* c */ ", "/**/", " // line comment\n", " \\\n ", "\n\n", " /* multi\n line */ "]
+SKIPS = [" ", " ", " ", "\n", "\n    ", "\t", "  ", " /* c */ ", "/**/", " // line comment\n", " \\\n ", "\n\n", " /* multi\n line */ ",
+         "\r\n", " // comment ended by CR LF\r\n", "\r", " // comment ended by a lone CR\r ", " \\\r\n ", " \\\r ", " \\ \f"]
 
 
 def layout(tokens: list[tuple[str, str]], r: random.Random | None, wild: float = 0.5) -> tuple[str, list[tuple[int, int]]]:
@@ -145,6 +146,9 @@ def layout(tokens: list[tuple[str, str]], r: random.Random | None, wild: float =
         else:
             col += len(s)
 
+    if r is not None and wild > 0 and r.random() < 0.4:
+        # text before the first token: blank lines, indentation, a comment
+        emit(r.choice(["\n", "\n\n  ", "    ", "// head\n", "/* head */ ", "\r\n \t"]))
     for i, (ty, tx) in enumerate(tokens):
         if i > 0:
             if r is not None and r.random() < wild:
